@@ -42,7 +42,7 @@ def own_hash_order():
 
 class DBWorld:
     def __init__(self, kind='F', names=('x', 'y'), cls='P', record=True,
-                 pool_size=7, bufsize=8192):
+                 pool_size=7, bufsize=8192, merge_names=()):
         env.reset_globals()
         own_hash_order()
         self.kind = kind
@@ -79,9 +79,17 @@ class DBWorld:
             o.v = 0
             o.base = None
             root[n] = o
+        # objects of a class that merges concurrent changes (a bit set)
+        self.merge_names = tuple(merge_names)
+        for n in merge_names:
+            o = hclasses.CR()
+            o.mode = 'merge'
+            o.v = 0
+            o.refs = []
+            root[n] = o
         env.CLOCK.now += 1
         tm.commit()
-        for n in names:
+        for n in tuple(names) + tuple(merge_names):
             self.oids[n] = root[n]._p_oid
         self.setup_tid = root[names[0]]._p_serial
         c.close()
@@ -165,6 +173,7 @@ class Prog:
         self.conn = None
         self.tm = None
         self.txn = 0
+        self.ninc = 0
 
     def boundary(self, what):
         self.txn += 1
@@ -211,6 +220,19 @@ class Prog:
                 o.base = base
                 o.v = w.newval()
                 w.log('write', self.tid, self.txn, st[1], base, o.v)
+            except Exception as e:      # noqa: B902
+                w.log('write-error', self.tid, self.txn, st[1],
+                      type(e).__name__)
+        elif k == 'inc':
+            # add a bit nobody else uses to an object whose class merges
+            try:
+                o = self.obj(st[1])
+                o._p_activate()
+                amount = 1 << (4 * self.tid + self.ninc)
+                self.ninc += 1
+                serial = o._p_serial
+                o.v = o.v + amount
+                w.log('inc', self.tid, self.txn, st[1], amount, serial)
             except Exception as e:      # noqa: B902
                 w.log('write-error', self.tid, self.txn, st[1],
                       type(e).__name__)
